@@ -43,6 +43,7 @@ var (
 	ErrPreBlockMissMatch    = errors.New("play block failed because pre-hash != latest_block")
 	ErrUnexpected           = errors.New("this is a unexpected error")
 	ErrInvalidAutogenTx     = errors.New("found invalid autogen-tx")
+	ErrInvalidCoinbaseTx    = errors.New("found invalid coinbase-tx")
 	ErrUTXODuplicated       = errors.New("found duplicated utxo in same tx")
 	ErrRWSetInvalid         = errors.New("RWSet of transaction invalid")
 	ErrACLNotEnough         = errors.New("ACL not enough")
@@ -1153,6 +1154,9 @@ func (t *State) procTodoBlkForWalk(todoBlocks []*pb.InternalBlock) (err error) {
 				utxoKeysInBlock[utxoKey] = true
 			}
 			t.log.Debug("procTodoBlkForWalk", "txid", showTxId, "autogen", t.verifyAutogenTxValid(tx), "coinbase", tx.Coinbase)
+			if tx.Coinbase && !t.isPlainCoinbaseTx(tx) {
+				return fmt.Errorf("invalid coinbase tx.txid:%s,err:%v", showTxId, ErrInvalidCoinbaseTx)
+			}
 			if tx.Autogen && !tx.Coinbase && !t.isPlainAutogenTx(tx) {
 				return fmt.Errorf("invalid autogen tx.txid:%s,err:%v", showTxId, ErrInvalidAutogenTx)
 			}
